@@ -6,6 +6,7 @@ import (
 	"sort"
 	"strings"
 	"testing"
+	"time"
 
 	"verif/lib/evid"
 	"verif/lib/host"
@@ -103,6 +104,7 @@ func TestC01(t *testing.T) {
 		}
 	}
 	collect := os.Getenv("DIFF_COLLECT") != ""
+	spent, count := map[string]float64{}, map[string]int{}
 	type group struct {
 		n       int
 		example c01Case
@@ -119,7 +121,10 @@ func TestC01(t *testing.T) {
 			continue
 		}
 		rec.Class("source:" + src.Name)
+		t0 := time.Now()
 		msg, cs := runC01(rec, hist, findings)
+		spent[src.Name] += time.Since(t0).Seconds()
+		count[src.Name]++
 		if rec.WantSample(src.Name) && len(hist.Steps) > 0 {
 			rec.Sample(src.Name, map[string]any{"origin": hist.Origin, "features": hist.Features, "last_step": stepSource(hist, -1)})
 		}
@@ -138,6 +143,11 @@ func TestC01(t *testing.T) {
 		g.n++
 		g.origins[hist.Origin] = true
 	}
+	perSrc := map[string]string{}
+	for k, v := range spent {
+		perSrc[k] = fmt.Sprintf("%d histories, %.1f s", count[k], v)
+	}
+	rec.Extra("time_per_source", perSrc)
 	for _, s := range Sources {
 		if s.Stats != nil {
 			rec.Extra("source_"+s.Name, s.Stats())
